@@ -288,6 +288,13 @@ def applyOp : Op → Row → Row → Row
   | .diff, a, b => a.diff b
   | .xor, a, b => a.xor b
 
+/-- executeRowShard with from/to: no fragment => empty row, one => that row, several =>
+`rows[0].Union(rows[1:]...)`. -/
+def unionRows : List Row → Row
+  | [] => []
+  | [r0] => r0
+  | r0 :: rest => Row.unionK r0 rest
+
 /-- `executeBitmapCallShard`. -/
 def evalShard (st : St) : Expr → Nat → Except Err Row
   | .row f r, s =>
@@ -301,11 +308,7 @@ def evalShard (st : St) : Expr → Nat → Except Err Row
     | some t =>
       if t ≠ .time then .ok []      -- no time quantum: empty row
       else
-        let rows : List Row := (views.filter (fun v => st.hasFrag f v s)).map (fun v => [⟨s, st.fragRow f v r s⟩])
-        match rows with
-        | [] => .ok []
-        | [r0] => .ok r0
-        | r0 :: rest => .ok (Row.unionK r0 rest)
+        .ok (unionRows ((views.filter (fun v => st.hasFrag f v s)).map (fun v => [⟨s, st.fragRow f v r s⟩])))
   | .rowCond f c, s =>
     match st.fieldType f with
     | none => .error .fieldNotFound
